@@ -8,6 +8,7 @@ from ..absint import Interp, Hooks, State, K, Sym, Obj, Exc, NONE, ListVal, Func
 from ..report import Check
 from .. import util
 from .common import ForkHooks, labels_of
+from .common import check_zero_is_a_value
 
 MI = 'exactly_lib.impls.types.interval.matcher_interval'
 COMB = 'exactly_lib.util.interval.w_inversion.combinations'
@@ -31,6 +32,13 @@ def check(c: Check):
     from .common import check_application_purity
     check_application_purity(c, 'C13-e', ['exactly_lib.type_val_prims.string_transformer:StringTransformer', 'exactly_lib.type_val_prims.matcher.matcher_base_class:MatcherWTrace'], floor=25)
     clause_f(c)
+    # g: line numbers and interval limits - 0 is a number, None is "no limit"
+    check_zero_is_a_value(c, 'C13-g', ['exactly_lib.util.interval.int_interval',
+                                       'exactly_lib.util.interval.w_inversion.combinations',
+                                       'exactly_lib.util.interval.w_inversion.intervals',
+                                       'exactly_lib.impls.types.string_transformer.impl.filter.line_nums.range_merge',
+                                       'exactly_lib.impls.types.string_transformer.impl.filter.line_nums.sources'], 10,
+                          'a limit of 0 is a limit, None is "unlimited"')
     from .common import sweep_records
     sweep_records(c, 'C13-rec', ['exactly_lib.impls.types.string_transformer.impl.filter.line_nums.range_expr', 'exactly_lib.util.interval'], floor=6, strict=True)
 
